@@ -55,9 +55,26 @@ def case_ops_at(cases_path, case_id):
     return ops
 
 
+def shrink(ops, work):
+    """shortest suffix of the history on which `c16 replay` still reports the property failing
+    (every op of a case is checked against the observation just before it, so a suffix replayed on a
+    fresh context is a history of its own)"""
+    tmp = os.path.join(work, "shrink.json")
+    for n in (1, 2, 3, 5, 8, 13):
+        if n >= len(ops):
+            break
+        with open(tmp, "w") as f:
+            json.dump({"kind": "history", "ops": ops[-n:], "mid": False}, f)
+        rc, out, _ = sh([HARNESS, "replay", tmp], timeout=120)
+        if rc == 1 and "PROPERTY FAILS" in out:
+            return ops[-n:], True
+    return ops, False
+
+
 def run(tier):
     res = Result(PROP, tier, "proof")
-    st = standard_build(res, PROP, group="c16", harness_bin="c16", model_deps=["theories/Model/Config.vo"])
+    st = standard_build(res, PROP, group="c16", harness_bin="c16", model_deps=["theories/Model/Config.vo"],
+                        tablegen_groups=["capi"])
     work = os.path.join(BUILD, "work", "%s-%s" % (PROP, tier))
     os.makedirs(work, exist_ok=True)
     impl, cases, model, orc = (os.path.join(work, x) for x in ("views.impl", "views.cases", "views.model", "oracle.json"))
@@ -101,9 +118,11 @@ def run(tier):
             for name, fs in seen.items():
                 found.append(name)
                 f = min(fs, key=lambda x: len(x.get("ops", [])) or 10 ** 6)   # the shortest history
+                ops, shrunk = shrink(f.get("ops", []), work)
                 res.add_violation("oracle-" + name,
-                                  {"kind": "history", "driver": "c16 replay", "signature": name, "ops": f.get("ops", []),
-                                   "mid": False, "detail": f["detail"], "occurrences": len(fs), "case": f.get("case")}, True)
+                                  {"kind": "history", "driver": "c16 replay", "signature": name, "ops": ops,
+                                   "mid": False, "detail": f["detail"], "occurrences": len(fs), "case": f.get("case"),
+                                   "shrunk_from": len(f.get("ops", [])) if shrunk else None, "seed": res.seed}, True)
             if "ambiguous" in o.get("refs", "") and not o.get("refs", "").startswith("REFS"):
                 st["broken"].append({"obligation": "reference-fingerprints", "detail": o.get("refs")})
         except (OSError, ValueError, KeyError) as e:
